@@ -66,7 +66,7 @@ def gen(ctx: common.Ctx, n_corpus: int, n_mut: int) -> Iterator[dict[str, Any]]:
     for c in cases:
         if sent >= n_corpus:
             break
-        if corpus.uses_fixture_only_features(c) or c.cmd:
+        if corpus.uses_fixture_only_features(c) or c.cmd or corpus.has_config_files(c):
             continue
         files = c.all_files()
         if any(corpus.has_type_comments(t) for t in files.values()):
@@ -90,7 +90,7 @@ def gen(ctx: common.Ctx, n_corpus: int, n_mut: int) -> Iterator[dict[str, Any]]:
         if m is None or corpus.has_type_comments(m[0]):
             continue
         yield {"fn": "vlib.tasks.parsers:both", "args": {"files": {"main.py": m[0]}, "flags": ["--python-version", r.choice(pyvers)], "targets": ["main.py"]},
-               "_case": f"mut{j}", "_kind": "mutant:" + m[1][0]}
+               "_case": "mut:" + common.fingerprint(m[0])[:10], "_kind": "mutant:" + m[1][0]}
     # exploration slice (VERIF_SEED-dependent): generated typed programs and their perturbations
     from vlib import typedgen
     for j in range(max(10, n_mut // 12)):
